@@ -12,6 +12,7 @@ import (
 
 type nodeRoom struct {
 	cpu, mem, gpus, pods int64
+	gm                   int64 // memory of one device (MiB)
 	groups               map[string]int64 // group -> free memory
 	ngroups              int
 }
@@ -21,11 +22,20 @@ func Gen(r *u.Rng) Cluster {
 	var c Cluster
 	nn := r.Range(1, 3)
 	rooms := map[string]*nodeRoom{}
+	// memory of one device, the same on every node of the case: the default of unlabelled test nodes (100) or,
+	// one case in four, a realistic size (label nvidia.com/gpu.memory, a multiple of 100 MiB)
+	gm := int64(100)
+	if r.Chance(1, 4) {
+		gm = int64(u.Pick(r, []int{16300, 40900, 81900}))
+	}
 	for i := 0; i < nn; i++ {
 		ns := core.NodeSpec{Name: fmt.Sprintf("n%d", i+1), Cpu: int64(u.Pick(r, []int{4000, 8000})), Mem: 16 << 30,
 			Gpus: int64(u.Pick(r, []int{0, 1, 2, 2, 4})), Pods: int64(u.Pick(r, []int{4, 110, 110}))}
+		if gm != 100 {
+			ns.GpuMem = gm
+		}
 		c.Nodes = append(c.Nodes, ns)
-		rooms[ns.Name] = &nodeRoom{cpu: ns.Cpu, mem: ns.Mem, gpus: ns.Gpus, pods: ns.Pods, groups: map[string]int64{}}
+		rooms[ns.Name] = &nodeRoom{cpu: ns.Cpu, mem: ns.Mem, gpus: ns.Gpus, pods: ns.Pods, gm: gm, groups: map[string]int64{}}
 	}
 	nq := r.Range(1, 3)
 	for i := 0; i < nq; i++ {
@@ -49,6 +59,10 @@ func Gen(r *u.Rng) Cluster {
 			}
 		case 5:
 			proto.GpuMemory = int64(u.Pick(r, []int{25, 50, 100}))
+			if gm != 100 {
+				// around the device size and the 1/100 rounding steps of the portion
+				proto.GpuMemory = u.Pick(r, []int64{gm / 4, gm / 2, gm - 1, gm, gm + 1, gm + gm/300, gm + gm/200, gm + gm/200 + 1})
+			}
 		case 6:
 			proto.Cpu, proto.Mem = 0, 0 // best effort
 		default:
@@ -113,14 +127,17 @@ func place(r *u.Rng, rooms map[string]*nodeRoom, nodes []core.NodeSpec, p core.P
 		var groups []string
 		if p.Fraction != "" || p.GpuMemory > 0 {
 			need := p.GpuMemory
+			if need > rm.gm {
+				continue // cannot be running on one device
+			}
 			if p.Fraction != "" {
 				switch p.Fraction {
 				case "0.5":
-					need = 50
+					need = rm.gm / 2
 				case "0.25":
-					need = 25
+					need = rm.gm / 4
 				case "0.75":
-					need = 75
+					need = rm.gm * 3 / 4
 				}
 			}
 			nd := int(p.NumDev)
@@ -147,7 +164,7 @@ func place(r *u.Rng, rooms map[string]*nodeRoom, nodes []core.NodeSpec, p core.P
 			for k := 0; k < fresh; k++ {
 				rm.ngroups++
 				g := fmt.Sprintf("%s-G%d", n.Name, rm.ngroups)
-				rm.groups[g] = 100
+				rm.groups[g] = rm.gm
 				rm.gpus--
 				groups = append(groups, g)
 			}
@@ -213,10 +230,14 @@ func Run(dir, prop string, seed uint64, n int) error {
 			}
 		}
 	}
-	if prop == "C02" {
+	if prop == "C02" || prop == "C01" {
 		// function-level correspondence for the choice of GPU groups (GetNodePreferableGpuForSharing)
-		for i := 0; i < 3*n; i++ {
+		nd := 3 * n
+		for i := 0; i < nd; i++ {
 			term, label := DecisionCase(root.Fork(uint64(2000000 + i)))
+			if prop == "C01" {
+				term = strings.Replace(term, "(PDecision ", "(FDecision ", 1)
+			}
 			out.Add(term, label)
 			out.Count("decision-cases")
 			out.NonTrivial(label)
@@ -278,10 +299,10 @@ func Run(dir, prop string, seed uint64, n int) error {
 		}
 		out.Sample(label)
 	}
-	out.Stats["rule"] = "generated clusters (1-3 nodes, 0-4 GPUs, 1-3 queues with quotas/limits, 2-7 jobs of 1-3 pods: whole / fractional / multi-fraction / gpu-memory / cpu-only / best-effort, gangs with minMember and two pod sets, pending / running / mixed / terminating) assembled with the real constructors; the real actions (allocate, then a random subset of consolidation, reclaim, preempt, stalegangeviction) run once with the default plugin tiers and a recording cache. Non-trivial = the cycle issued at least one Bind / Evict / TaskPipelined; distinct by cluster and decisions."
+	out.Stats["rule"] = "generated clusters (1-3 nodes, 0-4 GPUs of 100 MiB or, one case in four, 16300 / 40900 / 81900 MiB with gpu-memory requests around the device size, 1-3 queues with quotas/limits, 2-7 jobs of 1-3 pods: whole / fractional / multi-fraction / gpu-memory / cpu-only / best-effort, gangs with minMember and two pod sets, pending / running / mixed / terminating) assembled with the real constructors; the real actions (allocate, then a random subset of consolidation, reclaim, preempt, stalegangeviction) run once with the default plugin tiers and a recording cache. Non-trivial = the cycle issued at least one Bind / Evict / TaskPipelined; distinct by cluster and decisions."
 	switch prop {
 	case "C01":
-		out.Stats["rule"] = out.Stats["rule"].(string) + " Plus the same kind of clusters with injected failures of the k-th Bind / Evict Cache call (k < 8, each with probability 1/3 resp. 1/5): only the monitor (occupying + successfully bound <= allocatable) is evaluated on them. Plus, exhaustively, the 80 combinations of pod phase x deletionTimestamp x spec.nodeName x BindRequest x scheduling gates through the real PodInfo constructor and NodeInfo.AddTasksToNode (status and whether the pod is accounted on its node)."
+		out.Stats["rule"] = out.Stats["rule"].(string) + " Plus the same kind of clusters with injected failures of the k-th Bind / Evict Cache call (k < 8, each with probability 1/3 resp. 1/5): only the monitor (occupying + successfully bound <= allocatable) is evaluated on them. Plus, exhaustively, the 80 combinations of pod phase x deletionTimestamp x spec.nodeName x BindRequest x scheduling gates through the real PodInfo constructor and NodeInfo.AddTasksToNode (status and whether the pod is accounted on its node). Plus function-level decision cases (as in C02): the real GetNodePreferableGpuForSharing on generated nodes with running, terminating, bound and nominated occupants and a pending fractional / multi-fraction / gpu-memory task."
 	case "C02":
 		out.Stats["rule"] = out.Stats["rule"].(string) + " Plus the same kind of clusters with injected failures of the k-th Bind / Evict Cache call (k < 8, each with probability 1/3 resp. 1/5): only the device monitor is evaluated on them. Plus function-level decision cases: generated nodes (1-4 GPUs, up to 6 shared / whole-GPU occupants running, terminating, bound or nominated) and a pending fractional / multi-fraction / gpu-memory task; the real GetNodePreferableGpuForSharing is called with the candidate list in pack, spread or shuffled order."
 	case "C03":
